@@ -416,19 +416,19 @@ def run_property(prop, tier, out, binary=None):
     scr, covr = walk(edges_r, 2, rnd, 2500 if quick else 12000, prefer)
     scenarios.append(("rln-tour-d2", scr, ["rln"]))
     out.notes.append(f"RLN API depth-2 tour: {len(edges_r)} transitions, {covr} covered")
-    scenarios.append(("rln-d20", gen_random_big(rnd, rops, 12 if quick else 120, 25), ["rln"]))
+    scenarios.append(("rln-d20", gen_random_big(rnd, rops, 12 if quick else 50, 25), ["rln"]))
     # 5. the other two backends behind the same public API (builds with `fullmerkletree` / without default features):
     #    depth 20 with boundary positions, and (thorough) the depth-2 tour
     other = {}
     for cfgname in ("full", "optimal"):
         other[cfgname], _ = build_harness(cfgname)
-        scenarios.append((f"rln-d20-{cfgname}", gen_random_big(rnd, rops, 10 if quick else 120, 25, near_end=True), ["rln", cfgname]))
+        scenarios.append((f"rln-d20-{cfgname}", gen_random_big(rnd, rops, 10 if quick else 80, 25, near_end=True), ["rln", cfgname]))
         if not quick:
             scenarios.append((f"rln-tour-d2-{cfgname}", scr, ["rln", cfgname]))
     # 6. the three backends at the trait level at depths 10 and 20 (sparse observation; proofs of low, high and
     #    moving positions with everything the proof type exposes: decoded position, recomputed root, verdicts)
     for dd in (10, 20):
-        scenarios.append((f"big-d{dd}", gen_random_big(rnd, ops, 6 if quick else 60, 20, near_end=False, depth=dd, big_batches=True), ["full", "optimal", "pm"]))
+        scenarios.append((f"big-d{dd}", gen_random_big(rnd, ops, 6 if quick else 30, 20, near_end=False, depth=dd, big_batches=True), ["full", "optimal", "pm"]))
     total_events = 0
     distinct = nontriv = 0
     traces_ok = 0
